@@ -1884,6 +1884,28 @@ def _run_one(m, base_known):
 SEEDED_DIR = os.path.join(VERIF, "seeded")
 
 
+# ---------------------------------------------------------------------------- rules added with the fourth round of seeded changes
+M("C12", "optimizer-reads-process-wide-population", OPT,
+  '            / self.consts_for_optimizer["BILLION_KCALS_NEEDED"]\n            * 100,\n            "Kcals_Fed_Month_" + str(month) + "_Constraint",',
+  '            / Food.conversions.billion_kcals_needed\n            * 100,\n            "Kcals_Fed_Month_" + str(month) + "_Constraint",', "C12.SCALE")
+M("C07", "reset-skipped-for-empty-herd", "src/food_system/animal_populations.py",
+  '        self.NE_balance = Food(\n            self.net_energy_required_per_species(), 0, 0\n        )  # this is the feed required per month for the species',
+  '        if self.current_population < 1:\n            return\n        self.NE_balance = Food(\n            self.net_energy_required_per_species(), 0, 0\n        )  # this is the feed required per month for the species',
+  "C07.NE")
+M("C05", "extra-meat-through-alias", "src/optimizer/parameters.py",
+  '        extra_meat_round2 = (\n            time_consts_round2["each_month_meat_slaughtered"]\n            - time_consts_round1["each_month_meat_slaughtered"]\n        )',
+  '        extra_meat_round2 = (\n            time_consts_round2["each_month_meat_slaughtered"]\n            - time_consts_round1["each_month_meat_slaughtered"]\n        )\n'
+  '        shown_kcals = time_consts_round2["each_month_meat_slaughtered"].kcals\n        shown_kcals -= time_consts_round1["each_month_meat_slaughtered"].kcals',
+  "C05.STATE")
+M("C11", "label-list-stripped-in-place-by-a-callee", "src/food_system/unit_conversions.py",
+  '        # the unit_multiplier refers to the fraction that the ratio this unit takes relative to the units billion',
+  '        for index_, unit_ in enumerate(units):\n            if unit_.endswith(" per month"):\n                units[index_] = unit_[: -len(" per month")] + " per month"\n'
+  '        # the unit_multiplier refers to the fraction that the ratio this unit takes relative to the units billion',
+  "C11.PURE")
+M("C17", "korea-labels-restyled", "src/utilities/import_utilities.py",
+  '        "Republic of Korea",', '        "Korea (Republic of)",', "C17.WIRE")
+
+
 def seeded_for(pid):
     """sub-agent-written defects kept under /verif/seeded/<id>/ (patch.diff + meta.json); an entry is replayed for every
     property listed in its meta.json `caught_by`"""
